@@ -408,6 +408,19 @@ func (idx *RoaringMetadataIndex) queryNumeric(bsiIndex *bsi.BSI, filter Filter) 
 		}
 		return bsiIndex.CompareValue(0, bsi.RANGE, minVal, maxVal, nil), nil
 
+	case OpNotRange: // Complement of a range among the documents that have the field
+		minVal, err := toInt64(filter.Value)
+		if err != nil {
+			return nil, err
+		}
+		maxVal, err := toInt64(filter.Value2)
+		if err != nil {
+			return nil, err
+		}
+		result := bsiIndex.GetExistenceBitmap().Clone()
+		result.AndNot(bsiIndex.CompareValue(0, bsi.RANGE, minVal, maxVal, nil))
+		return result, nil
+
 	default:
 		return nil, fmt.Errorf("unsupported operator for numeric field: %s", filter.Operator)
 	}
@@ -448,7 +461,8 @@ const (
 	OpNotIn Operator = "not_in" // Not in a set of values
 
 	// Range operators
-	OpRange Operator = "range" // Within a range [Value, Value2]
+	OpRange    Operator = "range"     // Within a range [Value, Value2]
+	OpNotRange Operator = "not_range" // Has the field, outside [Value, Value2] (what Not(Range) yields)
 
 	// Existence operators
 	OpExists    Operator = "exists"     // Field exists (has any value)
@@ -559,6 +573,10 @@ func Not(filter Filter) Filter {
 		filter.Operator = OpNotExists
 	case OpNotExists:
 		filter.Operator = OpExists
+	case OpRange:
+		filter.Operator = OpNotRange
+	case OpNotRange:
+		filter.Operator = OpRange
 	}
 	return filter
 }
